@@ -5,6 +5,7 @@ CONSTANTS Producers = {"p1"}
           RecheckThread = FALSE
           SafeEnv = TRUE
           Locks = TRUE
+          RealTime = FALSE
           NMsgs = 2
           ScriptSet = {"reset", "quit"}
           Script2Set = {"reset"}
@@ -16,6 +17,7 @@ INVARIANT ProducerOrder
 INVARIANT SyncDeliveredOnReturn
 INVARIANT WorkerOnly
 INVARIANT AsyncOrder
+INVARIANT RealTimeOrder
 INVARIANT LateMessagesSync
 INVARIANT DrainBeforeStop
 INVARIANT NoUseAfterFree
